@@ -217,7 +217,11 @@ func (s *Stdio) IO(ctx context.Context) (chan interface{}, chan *Result, error) 
 
 				if s.WriteStatePerMsg {
 					if err := s.writeState(ctx); err != nil {
-						panic(err)
+						// Say a machine that left NaN in
+						// its bindings.  Not a reason to
+						// take the whole crew down (Stop
+						// reports the error, too).
+						log.Printf("state output error %s", err)
 					}
 				}
 			}
